@@ -253,8 +253,19 @@ func checkC16Cb(t *Toks) string {
 	// the verdict is exactly "program = x(output key of (key, root)) and parity matches"
 	q := taproot.ComputeTaprootOutputKey(cb.InternalKey, root)
 	want := bytes.Equal(schnorr.SerializePubKey(q), prog) && cb.OutputKeyYIsOdd == tapIsOdd(q)
+	depth := len(cb.InclusionProof) / 32
 	if got := taproot.VerifyTaprootLeafCommitment(cb, prog, script) == nil; got != want {
-		return fail("cb.verdict", fmt.Sprintf("got=%v/want=%v", got, want))
+		return fail("cb.verdict", fmt.Sprintf("got=%v/want=%v/depth=%d", got, want, depth))
+	}
+	// the same block assembled in memory (not through ParseControlBlock)
+	mem := taproot.ControlBlock{ControlBlock: txscript.ControlBlock{
+		InternalKey:     cb.InternalKey,
+		OutputKeyYIsOdd: cb.OutputKeyYIsOdd,
+		LeafVersion:     cb.LeafVersion,
+		InclusionProof:  append([]byte{}, cb.InclusionProof...),
+	}}
+	if got := taproot.VerifyTaprootLeafCommitment(&mem, prog, script) == nil; got != want {
+		return fail("cb.verdict.inmemory", fmt.Sprintf("got=%v/want=%v/depth=%d", got, want, depth))
 	}
 	return "OK"
 }
